@@ -30,10 +30,12 @@ Grid(c, s, t, k) == [q \in 1..(c.ny * c.nx) |->
                        F(Token(s, t, k, ((q - 1) \div c.nx) + 1, ((q - 1) % c.nx) + 1))]
 
 \* ------------------------------------------------------------------- times
-\* step t (1-based) begins at start + (t-1) hours and ends one hour later
+\* step t (1-based) begins at start + (t-1) steps and ends one step later; a
+\* step is c.dth whole hours (one hour where the configuration names none)
+Dth(c) == IF "dth" \in DOMAIN c THEN c.dth ELSE 1
 StartInst(c) == <<DaysBeforeYear("std", c.year) + c.jjj - 1, c.hour * 3600, 0>>
-BeginOf(c, t) == AddSec(StartInst(c), (t - 1) * 3600)
-EndOf(c, t) == AddSec(StartInst(c), t * 3600)
+BeginOf(c, t) == AddSec(StartInst(c), (t - 1) * Dth(c) * 3600)
+EndOf(c, t) == AddSec(StartInst(c), t * Dth(c) * 3600)
 \* CAMx header date: two-digit year * 1000 + day of year
 YYJJJ(inst) == (YearOf("std", inst[1]) % 100) * 1000 + DayOfYear("std", inst[1])
 HourOf(inst) == inst[2] \div 3600
